@@ -86,6 +86,9 @@ pub fn rss_cap() -> u64 {
 /// Explore all histories up to `max_depth`. With `dedup` states with equal fingerprints are merged
 /// (sound: equal values have equal futures); without it the plain tree is searched (stateless guard).
 pub fn bfs<S: Spec>(spec: &S, max_depth: usize, dedup: bool, rep: &Report, caps: &Caps) -> Stats {
+    // give freed memory of an earlier search back to the OS, so that the RSS-based memory guard
+    // below measures this search and not the previous one
+    trim_heap();
     let t0 = Instant::now();
     let mut stats = Stats::default();
     let mut seen: HashSet<u128> = HashSet::new();
@@ -176,8 +179,23 @@ pub fn bfs<S: Spec>(spec: &S, max_depth: usize, dedup: bool, rep: &Report, caps:
             stats.samples.push(last.hist.clone());
         }
     }
+    drop(frontier);
+    drop(seen);
+    trim_heap();
     stats
 }
+
+#[cfg(all(target_os = "linux", target_env = "gnu"))]
+fn trim_heap() {
+    extern "C" {
+        fn malloc_trim(pad: usize) -> i32;
+    }
+    unsafe {
+        malloc_trim(0);
+    }
+}
+#[cfg(not(all(target_os = "linux", target_env = "gnu")))]
+fn trim_heap() {}
 
 fn key_of<S: Spec>(spec: &S, db: &Database, m: &S::M) -> u128 {
     let mut s = crate::fp::canon(db);
